@@ -225,6 +225,21 @@ def check(ctx, c):
                 return
             ctx.fail(c, f"lint --json failed before the conversion: {r0.brief()}")
         snap0 = AN.snapshot(root)
+        if len(paths) % 3 == 0:
+            # a stale REUSE.toml of zero bytes (left by an interrupted run; the tool does not take it for a configuration file):
+            # either nothing happens or the conversion is complete
+            (root / "REUSE.toml").write_bytes(b"")
+            rs = cli.run(["convert-dep5"], root)
+            ctx.label("stale-empty-REUSE.toml")
+            if (root / ".reuse/dep5").exists():
+                if (root / "REUSE.toml").read_bytes() != b"" or (root / ".reuse/dep5").read_bytes() != snap0[".reuse/dep5"]:
+                    ctx.fail(c, f"convert-dep5 next to an empty REUSE.toml ({rs.brief()}) kept dep5 but changed files")
+                os.unlink(root / "REUSE.toml")
+            else:
+                _r, again = tree.lint_json(root)
+                if again is None or per_file(again) != {p: (v[0], v[1], {(("REUSE.toml", "reuse-toml") if s == (".reuse/dep5", "dep5") else s) for s in v[2]}) for p, v in per_file(before).items()}:
+                    ctx.fail(c, f"convert-dep5 next to an empty REUSE.toml removed .reuse/dep5 without a complete conversion ({rs.brief()}); REUSE.toml now: {(root / 'REUSE.toml').read_bytes()[:200]!r}")
+                return
         # ---- failing write first (on a copy of the state: restore afterwards)
         with faults.injected({str(root / "REUSE.toml"): "nowrite"}):
             rf = cli.run(["convert-dep5"], root)
